@@ -153,6 +153,46 @@ Proof. intros H0 Hk. unfold dft.
   rewrite (sumn_ext K N _ (fun n => pw W (k * n) * pw V (k0 * n))).
   2:{ intros n Hn. rewrite (Nat.mul_comm n k). ring. }
   apply orth; assumption. Qed.
+(* the conjugate tone W^(+k0 n) = exp(-2 j pi k0 n / N) lands on bin N - k0 *)
+Lemma orthW m k : (m < N)%nat -> (k < N)%nat ->
+  sumn N (fun n => pw W (m * n) * pw W (n * k)) = if Nat.eq_dec ((m + k) mod N) 0 then ofnat N else 0.
+Proof.
+  intros Hm Hk.
+  rewrite (sumn_ext K N _ (fun n => pw W (n * (m + k)))).
+  2:{ intros n Hn. rewrite <- pw_add. f_equal. lia. }
+  destruct (Nat.eq_dec (m + k) 0) as [E0|E0].
+  - rewrite E0. rewrite Nat.mod_0_l by lia. cbn [Nat.eq_dec]. destruct (Nat.eq_dec 0 0); [|congruence].
+    rewrite (sumn_ext K N _ (fun _ => 1)); [rewrite sumn_const; ring|]. intros n Hn. rewrite Nat.mul_0_r. reflexivity.
+  - destruct (Nat.lt_ge_cases (m + k) N) as [Hlt|Hge].
+    + rewrite Nat.mod_small by exact Hlt. destruct (Nat.eq_dec (m + k) 0) as [Ez|Ez]; [contradiction|]. apply orth0. lia.
+    + destruct (Nat.eq_dec (m + k) N) as [EN|EN].
+      * rewrite EN, Nat.mod_same by lia. destruct (Nat.eq_dec 0 0); [|congruence].
+        rewrite (sumn_ext K N _ (fun _ => 1)); [rewrite sumn_const; ring|]. intros n Hn. rewrite pw_mul, WN. apply pw_1.
+      * assert (Hs : ((m + k) mod N = m + k - N)%nat).
+        { replace (m + k)%nat with ((m + k - N) + 1 * N)%nat at 1 by lia. rewrite Nat.mod_add by lia. apply Nat.mod_small. lia. }
+        rewrite Hs. destruct (Nat.eq_dec (m + k - N) 0) as [Ez|Ez]; [lia|].
+        rewrite <- (orth0 (m + k - N)) by lia. apply sumn_ext. intros n Hn.
+        replace (n * (m + k))%nat with (n * (m + k - N) + n * N)%nat by nia. rewrite pw_add, (pw_mul W n N), WN, pw_1. ring.
+Qed.
+(* two tones  A exp(+2 j pi k0 n/N) + B exp(-2 j pi k0 n/N)  (cos/sin with phase on a DFT bin):
+   A lands on bin k0 and B on bin N - k0  (termXq: rq1.shift_k(k0), rq2.shift_k(-k0)) *)
+Theorem dft_two_tone (A B : K) k0 k : (0 < k0 < N)%nat -> (k < N)%nat ->
+  dft (fun n => A * pw V (k0 * n) + B * pw W (k0 * n)) k
+  = A * (if Nat.eq_dec k k0 then ofnat N else 0) + B * (if Nat.eq_dec k (N - k0) then ofnat N else 0).
+Proof.
+  intros H0 Hk. unfold dft.
+  rewrite (sumn_ext K N _ (fun n => A * (pw V (k0 * n) * pw W (n * k)) + B * (pw W (k0 * n) * pw W (n * k)))) by (intros; ring).
+  rewrite sumn_add, !sumn_scal. f_equal; f_equal.
+  - pose proof (dft_cexp k0 k ltac:(lia) Hk) as E. unfold dft in E. exact E.
+  - rewrite orthW by lia.
+    destruct (Nat.eq_dec k (N - k0)) as [->|Hne].
+    + replace (k0 + (N - k0))%nat with N by lia. rewrite Nat.mod_same by lia. destruct (Nat.eq_dec 0 0); [reflexivity|congruence].
+    + destruct (Nat.eq_dec ((k0 + k) mod N) 0) as [Em|Em]; [|reflexivity]. exfalso.
+      destruct (Nat.lt_ge_cases (k0 + k) N) as [Hlt|Hge].
+      * rewrite Nat.mod_small in Em by exact Hlt. lia.
+      * replace (k0 + k)%nat with ((k0 + k - N) + 1 * N)%nat in Em by lia. rewrite Nat.mod_add in Em by lia.
+        rewrite Nat.mod_small in Em by lia. lia.
+Qed.
 (* shift: a sequence stored with origin n0 (Sequence.DFT uses self.n) *)
 Theorem dft_shift (x : nat -> K) n0 k :
   sumn N (fun i => x i * pw W ((n0 + i) * k)) = pw W (n0 * k) * dft x k.
